@@ -918,6 +918,24 @@ def _r19_11(prog: Program, res: Result) -> None:
             good = bool(worlds) and all(any(f_[0] == "lit" and (f_[2] == ("isdisjoint(" in plain(f_[1]))) and any(_word_in(h, plain(f_[1])) for h in holders) for f_ in w.facts)
                                         for w in worlds)
             ok = ok and good
+        # the census is taken over THE renamings that are applied: an argument of the census call that is re-bound between the
+        # call and the rewrites (filtered, merged) makes the census speak about another set of places
+        stale = None
+        for c in prog.calls_in(fn):
+            r = prog.resolve_call(c.func, fn.mod, fn)
+            if not (r and r[0] == "fn" and r[1].key in census):
+                continue
+            for a in c.args + [k.value for k in c.keywords]:
+                if not (isinstance(a, ast.Name) and len(bindings(fn).get(a.id, [])) > 1):
+                    continue
+                at_call = {w.token(a.id) for w in pa.worlds_at(c)}
+                at_points = {w.token(a.id) for p_ in points for w in pa.worlds_at(p_)}
+                if at_call and at_points and not (at_call & at_points):
+                    stale = (c, a.id)
+        if stale is not None:
+            res.bad("R19.11", fn.loc(stale[0]), fn.fq, f"{short(stale[0], 70)} # census of the places that spell a name",
+                    f"the census is taken over `{stale[1]}` as it is BEFORE it is re-bound; the rewrites are built from the later value: places that are dropped in between "
+                    "(two candidate names, a blacklisted candidate) count as renamed, so a name that is renamed in some places only is no longer left alone")
         res.decide(ok, "R19.11", fn.loc(points[0]), fn.fq, "a name is renamed everywhere or nowhere",
                    f"rewrites are reached only after the old name was tested against the names still spelled elsewhere ({sorted(holders)})" if ok else
                    "renamings become rewrites without a test that no place spelling the old name is left behind: a re-binding in an `if`, a loop target, a read in "
@@ -1056,6 +1074,9 @@ def _r19_7(prog: Program, res: Result) -> None:
 from ..selftest import Variant  # noqa: E402
 
 VARIANTS: List[Variant] = [
+    Variant("census-taken-before-the-renamings-are-filtered", "FIRE", "fixes", '    renamings = {\n        node: list(substitutes)[0]\n        for node, substitutes in renamings.items()\n        if len(substitutes) == 1 and blacklisted_names.isdisjoint(substitutes)\n    }\n', "    names_left_alone = _names_spelled_elsewhere(ast_tree, renamings)\n" + '    renamings = {\n        node: list(substitutes)[0]\n        for node, substitutes in renamings.items()\n        if len(substitutes) == 1 and blacklisted_names.isdisjoint(substitutes)\n    }\n', "R19.11",
+            extra=[("fixes", '    names_left_alone = _names_spelled_elsewhere(ast_tree, renamings)\n    transaction = 0\n', "    transaction = 0\n")]),
+    Variant("filtered-renamings-get-a-name-of-their-own", "SILENT", "fixes", '    renamings = {\n        node: list(substitutes)[0]\n        for node, substitutes in renamings.items()\n        if len(substitutes) == 1 and blacklisted_names.isdisjoint(substitutes)\n    }\n', '    renamings = {\n        node: list(substitutes)[0]\n        for node, substitutes in renamings.items()\n        if len(substitutes) == 1 and blacklisted_names.isdisjoint(substitutes)\n    }\n'.replace("    renamings = {", "    candidate_renamings, renamings = renamings, {", 1).replace("in renamings.items()", "in candidate_renamings.items()")),
     Variant("convention-renaming-without-the-census", "FIRE", "fixes", "        if old_names & names_left_alone:\n            continue  # One variable would become two, or two variables one\n", "", "R19.11"),
     Variant("redirection-without-the-census", "FIRE", "fixes", "            if node.id != substitute and node.id not in preserve | names_left_alone:", "            if node.id != substitute and node.id not in preserve:", "R19.11"),
     Variant("census-forgets-parameters", "FIRE", "fixes", "    if isinstance(node, ast.arg):\n        return [node.arg]\n    if isinstance(node, ast.alias):", "    if isinstance(node, ast.alias):", "R19.11"),
